@@ -83,18 +83,35 @@ def dispAdd (d : List (String × List (String × String))) (before : String) (li
   if d.any (fun e => e.1 == before) then d.map (fun e => if e.1 == before then (e.1, e.2 ++ [line]) else e)
   else d ++ [(before, [line])]
 
-/-- one call of the body of _makeContextualMarkLookup's loop: a context, an anchor key, its statements -/
+/-- the mark class of an anchor key (`anchorKey in self.context.markClasses`; the key-less anchors have none) -/
+def ctxClass (km : List (String × String)) (key : String) : Option String :=
+  if key == "" then none else alookup key km
+
+/-- one call of the body of _makeContextualMarkLookup's loop: a context, an anchor key, its statements.
+    A key to which no mark glyph attaches is skipped FIRST (`if anchorKey not in self.context.markClasses: continue`):
+    the context is not even split, no dispatch block and no referenced lookup are made, the counters stay as they are. -/
 def ctxStep (km : List (String × String)) (feat prefix_ : String) (kind : Kind) (context key : String)
     (names : List String) (entries : List Entry) (st : CtxFeature) : Except Err CtxFeature :=
-  match splitCtx context with
-  | .error e => .error e
-  | .ok (before, after) =>
-    match (if key == "" then none else alookup key km) with
-    | none => .error .keyErrorMarkClass         -- `self.context.markClasses[anchorKey]`
-    | some cls =>
+  match ctxClass km key with
+  | none => .ok st
+  | some cls =>
+    match splitCtx context with
+    | .error e => .error e
+    | .ok (before, after) =>
       let refName := prefix_ ++ "_" ++ toString st.refs.length
       let line := ("# " ++ after, posText after (" ".intercalate names) cls refName)
       .ok ⟨st.refs ++ [⟨feat, kind, keepLast entries⟩], dispAdd st.disp before line⟩
+
+/-- the loop body BEFORE the repair: the context was split first and `self.context.markClasses[anchorKey]` raised KeyError
+    for a key without mark class.  Kept for the counterexample only. -/
+def ctxStepOld (km : List (String × String)) (feat prefix_ : String) (kind : Kind) (context key : String)
+    (names : List String) (entries : List Entry) (st : CtxFeature) : Except Err CtxFeature :=
+  match splitCtx context with
+  | .error e => .error e
+  | .ok _ =>
+    match ctxClass km key with
+    | none => .error .keyErrorMarkClass
+    | some _ => ctxStep km feat prefix_ kind context key names entries st
 
 /-- the number of components of a contextual ligature statement:
     `max(a.number for a in anchorLists[glyph] if a.key and a.number is not None)` -/
